@@ -212,7 +212,19 @@ pub fn run(cfg: &J) -> J {
             r.stream(&text, ro, &exp, i % 4 == 0, i as usize);
         }
     }
-    json!({"bad": r.bad, "trace": r.trace, "evaluations": r.evals, "streams": n, "distinct": r.distinct.len()})
+    // texts with trivia at every token boundary inside a datum, generated by spec/mc/C12Spaced.tla with the expected value
+    let mut spaced = 0u64;
+    if let Some(p) = cfg["spaced_file"].as_str() {
+        for (k, line) in std::fs::read_to_string(p).expect("spaced file").lines().enumerate() {
+            if line.trim().is_empty() {
+                continue;
+            }
+            let c: J = serde_json::from_str(line).unwrap();
+            spaced += 1;
+            r.stream(&j_bytes(&c["text"]), &c["ro"], &[json_to_val(&c["exp"])], k % 16 == 0, k);
+        }
+    }
+    json!({"bad": r.bad, "trace": r.trace, "evaluations": r.evals, "streams": n, "spaced": spaced, "distinct": r.distinct.len()})
 }
 
 pub fn replay_case(case: &J) -> J {
